@@ -669,10 +669,11 @@ func (fr *Frame) appendOp(c *ssa.CallCommon, args []Val, rt types.Type, st *Stat
 		res := sIte(fits, app("mkslice", app("sl.base", s.T), app("sl.off", s.T), newLen, app("sl.cap", s.T)), app("mkslice", ref, "0", newLen, newCap))
 		return Val{T: g.define("append", SSlice, res), Go: rt, Sort: SSlice}
 	}
-	g.assume(fmt.Sprintf("(forall ((i! Int)) (! (=> (and (<= 0 i!) (< i! %s)) (= (select %s (+ %s i!)) (select %s (+ %s i!)))) :pattern ((select %s (+ %s i!)))))",
-		oldLen, dst, dstOff, srcArrOld, srcOffOld, dst, dstOff))
-	g.assume(fmt.Sprintf("(forall ((i! Int)) (! (=> (and (<= 0 i!) (< i! %s)) (= (select %s (+ %s %s i!)) (select %s (+ %s i!)))) :pattern ((select %s (+ %s %s i!)))))",
-		addLen, dst, dstOff, oldLen, addArr, addOff, dst, dstOff, oldLen))
+	// (quantified over ABSOLUTE positions j of the destination array: patterns without arithmetic)
+	g.assumeEngineQuant(fmt.Sprintf("(forall ((j! Int)) (! (=> (and (<= %s j!) (< j! (+ %s %s))) (= (select %s j!) (select %s (+ (- j! %s) %s)))) :pattern ((select %s j!))))",
+		dstOff, dstOff, oldLen, dst, srcArrOld, dstOff, srcOffOld, dst))
+	g.assumeEngineQuant(fmt.Sprintf("(forall ((j! Int)) (! (=> (and (<= (+ %s %s) j!) (< j! (+ %s %s %s))) (= (select %s j!) (select %s (+ (- j! (+ %s %s)) %s)))) :pattern ((select %s j!))))",
+		dstOff, oldLen, dstOff, oldLen, addLen, dst, addArr, dstOff, oldLen, addOff, dst))
 	// in place: everything outside [off+oldLen, off+newLen) unchanged
 	g.assume(sImp(fits, fmt.Sprintf("(forall ((i! Int)) (! (=> (or (< i! (+ %s %s)) (>= i! (+ %s %s))) (= (select %s i!) (select %s i!))) :pattern ((select %s i!))))",
 		app("sl.off", s.T), oldLen, app("sl.off", s.T), newLen, dst, oldArr, dst)))
@@ -714,9 +715,9 @@ func (fr *Frame) copyOp(c *ssa.CallCommon, args []Val, rt types.Type, st *State)
 		g.heapSet(st, h, sIte(app(">", n, "0"), app("store", heap, app("sl.base", dst.T), na), heap))
 		return g.goVal(n, types.Typ[types.Int])
 	}
-	g.assume(fmt.Sprintf("(forall ((i! Int)) (! (=> (and (<= 0 i!) (< i! %s)) (= (select %s (+ %s i!)) (select %s (+ %s i!)))) :pattern ((select %s (+ %s i!)))))",
-		n, na, dOff, srcArr, srcOff, na, dOff))
-	g.assume(fmt.Sprintf("(forall ((i! Int)) (! (=> (or (< i! %s) (>= i! (+ %s %s))) (= (select %s i!) (select %s i!))) :pattern ((select %s i!))))",
+	g.assumeEngineQuant(fmt.Sprintf("(forall ((j! Int)) (! (=> (and (<= %s j!) (< j! (+ %s %s))) (= (select %s j!) (select %s (+ (- j! %s) %s)))) :pattern ((select %s j!))))",
+		dOff, dOff, n, na, srcArr, dOff, srcOff, na))
+	g.assumeEngineQuant(fmt.Sprintf("(forall ((i! Int)) (! (=> (or (< i! %s) (>= i! (+ %s %s))) (= (select %s i!) (select %s i!))) :pattern ((select %s i!))))",
 		dOff, dOff, n, na, oldArr, na))
 	g.heapSet(st, h, sIte(app(">", n, "0"), app("store", heap, slPart(dst, 0), na), heap))
 	return g.goVal(n, types.Typ[types.Int])
@@ -1148,6 +1149,14 @@ func (fr *Frame) runAnchors(keys []string, when string, st *State, reach string,
 		pos := fr.fn.Pos()
 		if in != nil {
 			pos = in.Pos()
+		}
+		if a.Assume {
+			if err == nil {
+				g.assume(sImp(reach, t))
+			}
+			g.trusted[fmt.Sprintf("assume [%s] %s %s in %s: %s", lbl, a.When, a.Anchor, shortCallee(fc.Key), a.Assert.Src)] = true
+			g.declared["anchor-used:"+fc.Key+":"+a.Anchor] = true
+			continue
 		}
 		g.oblige("assert", fr.oname("assert", lbl), lbl, props, reach, t, a.Assert.Src, pos)
 		g.declared["anchor-used:"+fc.Key+":"+a.Anchor] = true
